@@ -21,6 +21,7 @@ import (
 	"os"
 	"strings"
 	"sync"
+	"sync/atomic"
 	"testing"
 	"time"
 
@@ -109,13 +110,18 @@ func TestVerif_C01_h1send(t *testing.T) {
 	defer p.ln.Close()
 	r := s.Rand()
 	n := verifh.N(1500, 12000)
+	var dialFailed atomic.Bool // the loopback dial itself failed (ephemeral ports exhausted on a busy machine …): not a verdict on the code
 	mk := func(compress bool) *Transport {
 		tr := T().EnableForceHTTP1()
 		tr.DisableCompression = !compress
 		tr.ExpectContinueTimeout = time.Millisecond
 		tr.ResponseHeaderTimeout = 1500 * time.Millisecond // a smuggled lower-case transfer-encoding makes the reference parser wait for chunks
 		tr.SetDial(func(ctx context.Context, network, addr string) (net.Conn, error) {
-			return net.Dial("tcp", p.ln.Addr().String())
+			c, err := net.Dial("tcp", p.ln.Addr().String())
+			if err != nil {
+				dialFailed.Store(true)
+			}
+			return c, err
 		})
 		return tr
 	}
@@ -155,16 +161,19 @@ func TestVerif_C01_h1send(t *testing.T) {
 			continue
 		}
 		var rec []int
-		var body io.ReadCloser
-		switch tc.bodyKind {
-		case 1:
-			body = io.NopCloser(&c01BytesBody{r: bytes.NewReader(tc.body), rec: &rec})
-		case 2:
-			body = &c01ScriptReader{data: append([]byte(nil), tc.body...), sizes: tc.sizes, rec: &rec}
-		}
 		hdr := tc.header.Clone()
-		req := &http.Request{Method: tc.method, URL: u, Host: tc.host, Header: hdr, Proto: "HTTP/1.1", ProtoMajor: 1, ProtoMinor: 1,
-			ContentLength: tc.cl, Body: body, Close: tc.close}
+		build := func() *http.Request {
+			rec = nil
+			var body io.ReadCloser
+			switch tc.bodyKind {
+			case 1:
+				body = io.NopCloser(&c01BytesBody{r: bytes.NewReader(tc.body), rec: &rec})
+			case 2:
+				body = &c01ScriptReader{data: append([]byte(nil), tc.body...), sizes: tc.sizes, rec: &rec}
+			}
+			return &http.Request{Method: tc.method, URL: u, Host: tc.host, Header: hdr.Clone(), Proto: "HTTP/1.1", ProtoMajor: 1, ProtoMinor: 1,
+				ContentLength: tc.cl, Body: body, Close: tc.close}
+		}
 		// what persistConn.roundTrip adds for this transport (mirrors its two conditions)
 		tc.extra = nil
 		if compress && hdr.Get("Accept-Encoding") == "" && hdr.Get("Range") == "" && tc.method != "HEAD" {
@@ -172,17 +181,34 @@ func TestVerif_C01_h1send(t *testing.T) {
 		}
 		human := fmt.Sprintf("%q %q rawQuery=%v host=%q hdr=%q cl=%d body=%d/%s sizes=%v close=%v compress=%v proxy=%v", tc.method, tc.rawURL, tc.rawQuery != nil, tc.host, tc.header, tc.cl, tc.bodyKind, tc.bodySpec, tc.sizes, tc.close, compress, tc.proxy)
 		s.Begin(fmt.Sprintf("h1send-%d", i), human)
-		p.take()
 		t0 := time.Now()
 		var resp *http.Response
 		var err error
-		if txt, bad := verifh.Safely(func() { resp, err = tr.RoundTrip(req) }); bad {
-			s.Crash(human, human, txt, "")
+		crashed := false
+		for attempt := 0; attempt < 6; attempt++ {
+			p.take()
+			dialFailed.Store(false)
+			req := build()
+			if txt, bad := verifh.Safely(func() { resp, err = tr.RoundTrip(req) }); bad {
+				s.Crash(human, human, txt, "")
+				crashed = true
+				break
+			}
+			if resp != nil {
+				io.Copy(io.Discard, resp.Body)
+				resp.Body.Close()
+			}
+			if !dialFailed.Load() {
+				break
+			}
+			time.Sleep(200 * time.Millisecond)
+		}
+		if crashed {
 			continue
 		}
-		if resp != nil {
-			io.Copy(io.Discard, resp.Body)
-			resp.Body.Close()
+		if dialFailed.Load() {
+			s.Count("skipped:dial-error")
+			continue
 		}
 		tr.CloseIdleConnections()
 		caps := p.take()
@@ -296,7 +322,7 @@ func TestVerif_C01_h1send(t *testing.T) {
 				s.Count("sent:raw-query-assigned")
 			}
 		}
-		s.Case(c01H1Line("c01send "+mode, tc, rec), ans, ok, "", sent, human)
+		s.Case(c01H1Line("c01send "+mode, tc, rec), ans, ok, "", sent, human+fmt.Sprintf(" -> err=%v connections=%d", err, len(caps)))
 	}
 	s.Need(t, "err:header", "err:method", "err:ctl", "err:bodylen", "sent:plain", "sent:order-mode", "sent:refused-by-reference-parser")
 	s.Finish()
